@@ -91,10 +91,12 @@ void ref_set(List& l, const std::string& k, const std::string& v) {
 }
 
 // ---- generators --------------------------------------------------------------------
+std::string neighbour_text(vf::ByteSource& b);
 std::string token(vf::ByteSource& b) {
   // colliding pool incl. empty, NUL, BMP/astral neighbours, invalid UTF-8
   static const std::string pool[] = {"a", "b", "", "c", "a b", "a+b", "%41", "A", "\xc3\xa9", "\xef\xbf\xbf", "\xf0\x90\x80\x80", "\xee\x80\x80", std::string("\0", 1), std::string("a\0b", 3), "\xff", "\xc3", "\xed\xa0\x80", "&", "=", "a=b", "a&b", "?", "#", "%", "%zz", "+", " ", "\xf0\x9f\x98\x80", "z", "aa", "ab", "\xef\xbd\x81", "\x7f", "~", "*-._", "\xd7\x90", "\xf4\x8f\xbf\xbf"};
   if (b.chance(40)) return b.raw(6);
+  if (b.chance(30)) return neighbour_text(b);
   if (b.chance(70)) {
     // names of 1-3 code points from a tiny alphabet, so that names share prefixes, high
     // surrogates (U+1F308/U+1F309/U+1F30A) and differ only in the last UTF-16 code unit
@@ -106,7 +108,24 @@ std::string token(vf::ByteSource& b) {
   }
   return pool[b.below(sizeof(pool) / sizeof(pool[0]))];
 }
+// Text made of the characters with a meaning in application/x-www-form-urlencoded ('+', '%',
+// '&', '=') and their neighbours in ASCII - the code points one bit or one step away ('*' ')'
+// ',' '#' ';' 'k' for '+', '$' '\'' '!' '-' '5' 'e' for '%', ...) - in runs longer than a machine
+// word: what a block-wise (SWAR / SIMD) scanner can confuse.
+std::string neighbour_text(vf::ByteSource& b) {
+  static const char alphabet[] = "+*),#;k%$'!-5e&\".6f=<?9}a +*+%2A_.~";
+  std::string s;
+  unsigned n = 6 + b.below(36);
+  for (unsigned i = 0; i < n; i++) s.push_back(alphabet[b.below(sizeof(alphabet) - 1)]);
+  return s;
+}
 std::string init_string(vf::ByteSource& b) {
+  if (b.chance(50)) {
+    std::string s = b.coin() ? "?" : "";
+    unsigned pairs = 1 + b.below(3);
+    for (unsigned i = 0; i < pairs; i++) { if (i) s += "&"; s += neighbour_text(b); }
+    return s;
+  }
   static const char* frag[] = {"a", "b", "=", "&", "+", "%41", "%", "%zz", "%2", "?", "#", "a=1", "b=2", "a=", "=x", "&&", "%26", "%3D", "%2B", "%00", "%C3%A9", "\xc3\xa9", "%FF", " ", "a=b=c", ";", "%e9", "c"};
   std::string s;
   if (b.chance(60)) s = "?";
